@@ -717,6 +717,7 @@ def check_rt(prop, tier, seed):
     binary = work.build(cfg["pkg"], cfg["engine"], race=cfg["race"])
     total = cfg["quick_runs"] if tier == "quick" else cfg["thorough_runs"]
     budget = cfg["quick_budget"] if tier == "quick" else cfg["thorough_budget"]
+    budget = int(os.environ.get("VERIF_BUDGET", budget))  # seconds; for trying a tier out under a shorter wall-clock budget
     if os.environ.get("VERIF_RUNS"):
         total = int(os.environ["VERIF_RUNS"])
     seed0 = seed * 1000003
